@@ -295,6 +295,33 @@ def run(repo, rep, tier):
     vfunc = repo.func(vis)
     vwhere = "%s:%d" % (vfunc.module.relpath, vfunc.node.lineno)
     top = ve.value
+    # the i18n:name capture may enclose the wrapper: it only redirects where
+    # the element's output -- the fallback included -- is written (so that
+    # the name's entry in the translation mapping is the fallback, not the
+    # discarded output)
+    nm = "has ns[(I18N, 'name')]"
+    if L.decides_on(top, nm):
+        named = L.branch(top, nm, True)
+        plain = L.branch(top, nm, False)
+        names = [w for w in A.walk(named) if isinstance(w, A.NodeV)
+                 and w.kind == "Name"]
+        inner_ok = bool(names) and all(
+            any(x is plain for x in A.walk(w)) for w in names)
+        rep.check(inner_ok, "R13.3", vfunc.qualname, "the i18n:name capture "
+                  "encloses the complete element, its on-error wrapper "
+                  "included (the same value that is returned without "
+                  "i18n:name)", construct="name-encloses-on-error",
+                  where=vwhere)
+        top = plain
+    inside = [w for o_ in A.walk(ve.value) if isinstance(o_, A.NodeV)
+              and o_.kind == "OnError" for w in A.walk(o_)
+              if isinstance(w, A.NodeV) and w.kind == "Name"]
+    rep.check(not inside, "R13.3", vfunc.qualname, "the element's own "
+              "i18n:name capture is not inside its on-error wrapper: a "
+              "failure would leave the capture unfinished and the discarded "
+              "output would reach the translation mapping under that name",
+              construct="name-encloses-on-error", where=vwhere,
+              detail="%d Name node(s) inside OnError" % len(inside))
     # a define-macro element returns a reference to its macro; the macro
     # body in the table carries the wrapper (side-door:define-macro below)
     dm = "has ns[(METAL, 'define-macro')]"
